@@ -172,6 +172,12 @@ def gen_cases(tier, seed):
         # DIR as the user spells it: plain, with ./ and trailing slashes, `.` from inside, through a symbolic link to it
         spelling = rng.choice(["d", "d", ".", "./d/", "./d", "d/", "dl", "dl/", "abs", "absgone"])
         batch = rng.weighted([("fault_free", 2), ("benign", 5), ("hard", 3)])
+        srng = Rng(derive(seed, PROP, "spell2", k))
+        if srng.chance(1, 5):
+            # more ways of naming the same directory (a stream of its own, so that the other choices stay what they were):
+            # a name with leading or trailing blanks next to a directory with the trimmed name; paths with `.` and `..`
+            # components, two leading `..`, `..` behind a symbolic link to a directory elsewhere
+            spelling = srng.choice(["ws_trail", "ws_lead", "ws_tab", "up2", "linkup", "d/../d", "./d/.", "dl/../d", "targets/../d", "targets/tdir/../../d/."])
         prng = Rng(derive(seed, PROP, "plan", k))
         plan = gen_plan(prng, batch, len(tree))
         streams = prng.choice(["pipes", "one"])
@@ -306,19 +312,33 @@ def run_case(case):
         f.write("inside link target dir")
     tfile = os.path.join(root, "targets", "tfile.mmm")
     tdir = os.path.join(root, "targets", "tdir")
-    ddir = os.path.join(root, "d")
+    spelling = case["dir"]
+    dn = {"ws_trail": "d ", "ws_lead": " d", "ws_tab": "d\t"}.get(spelling, "d")
+    ddir = os.path.join(root, dn)
     os.mkdir(ddir)
     build_tree(ddir, case["tree"], tfile, tdir)
-    build_tree(root, [e for e in case.get("outside", []) if e["name"] not in ("d", "targets")], tfile, tdir)
-    spelling = case["dir"]
+    build_tree(root, [e for e in case.get("outside", []) if e["name"] not in ("d", "targets", "far", "dl")], tfile, tdir)
+    if dn != "d":
+        # the directory with the trimmed name exists too, and has bytecode files of its own
+        os.mkdir(os.path.join(root, "d"))
+        for nm in ("x.mmm", "keep.mmm"):
+            with open(os.path.join(root, "d", nm), "w") as f:
+                f.write("bytecode of the neighbour")
     if spelling == ".":
         cwd, arg = ddir, "."
     elif spelling in ("abs", "absgone"):
         # DIR named absolutely; "absgone": the command is started in a directory that has been removed since
         cwd, arg = root, ddir
+    elif dn != "d":
+        cwd, arg = root, dn
+    elif spelling == "up2":
+        cwd, arg = tdir, "../../d"
+    elif spelling == "linkup":
+        os.symlink("targets/tdir", os.path.join(root, "far"))
+        cwd, arg = root, "far/../../d"
     else:
         cwd, arg = root, spelling
-    os.symlink("d", os.path.join(root, "dl"))
+    os.symlink(dn, os.path.join(root, "dl"))
     xenv = dict(case.get("vars") or {})
     if case.get("stale_pwd"):
         decoy = os.path.join(root, "elsewhere")
@@ -363,7 +383,7 @@ def run_case(case):
     removed = []
     for rel, val in before.items():
         parts = rel.split(os.sep)
-        direct_child = len(parts) == 2 and parts[0] == "d"
+        direct_child = len(parts) == 2 and parts[0] == dn
         may_go = direct_child and val[0] != "dir" and eligible_name(parts[1])
         if rel not in after:
             # a missing path below a removed ancestor is attributed to the ancestor
@@ -383,7 +403,7 @@ def run_case(case):
         # a symbolic link to a regular file is a file under either reading of "file" (the link itself must go, its target
         # must stay — the latter is part of the safety check above); links to directories and dangling links may stay or go
         left = [rel for rel, val in after.items()
-                if rel.count(os.sep) == 1 and rel.startswith("d" + os.sep) and eligible_name(rel.split(os.sep)[1])
+                if rel.count(os.sep) == 1 and rel.startswith(dn + os.sep) and eligible_name(rel.split(os.sep)[1])
                 and (val[0] == "file" or (val[0] == "link" and val[1] == tfile))]
         if left:
             return fail("incomplete", "bytecode files left behind without any fault: %r (rc=%d)" % (left, p["rc"]))
